@@ -1,3 +1,257 @@
 import FiberModel.DriverUtil
--- stub driver for C13; replaced when the property's model lands
-def main : IO Unit := pure ()
+import FiberModel.C13.Spec
+/-
+Driver for C13. Case fields (after the id):  cfg  threads  actions  obs
+(see harness/cmd/c13/main.go for the syntax). The model is executed at the harness' granularity:
+an action releases one thread for one atomic step, then every thread that is not at a yield point
+of the harness (Storage.Get/Set of an injected store, the downstream handler) runs on until it
+parks, blocks on the mutex or finishes; mutex hand-off is FIFO (sync.Mutex with sleeping waiters).
+-/
+open DriverUtil C13
+
+/-- `int(float64(prev) * (float64(reset) / float64(expiration)))` with IEEE doubles, as the Go code -/
+def floatWt (prev : Int) (reset expiration : Nat) : Int :=
+  (Float.ofInt prev * (Float.ofNat reset / Float.ofNat expiration)).toInt64.toInt
+
+structure CaseCfg where
+  cfg : Cfg
+  st : String          -- M | X | L
+  cfgMax : Int
+  mf : Bool
+  t0 : Nat
+
+def kvs (s : String) : List (String × String) :=
+  (s.splitOn ";").filterMap fun p => match p.splitOn "=" with
+    | [k, v] => some (k, v) | _ => none
+
+def parseCfg (s : String) : Except String CaseCfg := do
+  let kv := kvs s
+  let get (k : String) : Except String String :=
+    match kv.find? (·.1 == k) with | some p => pure p.2 | none => throw s!"outside-domain: cfg key {k} missing"
+  let flag (k : String) : Except String Bool := do
+    let v ← get k
+    if v == "1" then pure true else if v == "0" then pure false else throw s!"outside-domain: cfg flag {k}"
+  let alg ← get "alg"
+  let st ← get "st"
+  unless alg == "F" || alg == "S" do throw "outside-domain: alg"
+  unless st == "M" || st == "X" || st == "L" do throw "outside-domain: st"
+  let some exp := (← get "exp").toNat? | throw "outside-domain: exp"
+  unless exp ≥ 1 ∧ exp ≤ 1000 do throw "outside-domain: exp range"
+  let some mx := (← get "max").toInt? | throw "outside-domain: max"
+  let some t0 := (← get "t0").toNat? | throw "outside-domain: t0"
+  unless t0 ≥ 1 do throw "outside-domain: t0 = 0 (timestamp updater not running)"
+  let dflt ← flag "dflt"
+  if dflt then
+    unless alg == "F" ∧ st == "M" ∧ exp == 60 ∧ mx == 5 ∧ !(← flag "mf") ∧ !(← flag "sf") ∧ !(← flag "ss") do
+      throw "outside-domain: dflt with non-default fields"
+  pure { cfg := { sliding := alg == "S", lazy := st == "L", expiration := exp, skipFailed := ← flag "sf",
+                  skipSuccessful := ← flag "ss", wt := floatWt },
+         st := st, cfgMax := mx, mf := ← flag "mf", t0 := t0 }
+
+/-- key:max:status:next -/
+def parseThreads (cc : CaseCfg) (s : String) : Except String (Array Req) := do
+  if s == "-" then return #[]
+  let mut out := #[]
+  for p in s.splitOn "," do
+    match p.splitOn ":" with
+    | [k, m, st, nx] =>
+      let [kc] := k.toList | throw "outside-domain: key"
+      let some m := m.toInt? | throw "outside-domain: thread max"
+      let some st := st.toNat? | throw "outside-domain: status"
+      unless st ≥ 200 ∧ st ≤ 599 do throw "outside-domain: status range"
+      unless nx == "0" || nx == "1" do throw "outside-domain: next flag"
+      -- configDefault: Max <= 0 → 5; MaxFunc nil → func returning cfg.Max
+      let limit : Int := if cc.mf then m else if cc.cfgMax ≤ 0 then 5 else cc.cfgMax
+      out := out.push { key := kc.toNat, max := limit, status := st, next := nx == "1" }
+    | _ => throw "outside-domain: thread syntax"
+  if out.size > 64 then throw "outside-domain: too many threads"
+  pure out
+
+inductive HAct | start (t : Nat) | release (t : Nat) | tick (d : Nat) | gc
+
+def parseAct (n : Nat) (st : String) (s : String) : Except String HAct := do
+  let num (r : String) : Except String Nat :=
+    match r.toNat? with | some v => pure v | none => throw s!"outside-domain: action {s}"
+  match s.toList with
+  | 's' :: r => let t ← num (String.ofList r); if t < n then pure (.start t) else throw "outside-domain: tid"
+  | 'r' :: r => let t ← num (String.ofList r); if t < n then pure (.release t) else throw "outside-domain: tid"
+  | 't' :: r => let d ← num (String.ofList r); if d ≤ 100000 then pure (.tick d) else throw "outside-domain: tick"
+  | ['g'] => if st == "M" then throw "outside-domain: gc on the built-in store" else pure .gc
+  | _ => throw s!"outside-domain: action {s}"
+
+/-! ### coarse execution -/
+
+/-- is `pc` a point where the harness holds the thread? -/
+def isYield (st : String) (pc : Pc) : Bool :=
+  match pc with
+  | .atHandler | .atHandlerB => true
+  | .atGet | .atSet | .atGet2 | .atSet2 => st != "M"
+  | _ => false
+
+def isFinal (pc : Pc) : Bool := pc == .rejected || pc == .doneOk || pc == .doneBypass
+def isWant (pc : Pc) : Bool := pc == .wantLock || pc == .wantLock2
+
+structure Ex where
+  g : G
+  waitq : List Nat := []
+
+/-- let everything that is not held by the harness run until quiescence -/
+def settle (cfg : Cfg) (st : String) (n : Nat) : Nat → Ex → Ex
+  | 0, x => x
+  | fuel + 1, x =>
+    -- enqueue new mutex waiters in tid order of arrival (at most one arrives per action)
+    let newW := (List.range n).filter fun t => isWant (x.g.threads t).pc && !x.waitq.contains t
+    let x := { x with waitq := x.waitq ++ newW }
+    -- a free mutex goes to the head of the queue
+    match (if x.g.mux.isNone then x.waitq.head? else none) with
+    | some t =>
+      match stepThr cfg x.g t with
+      | some g' => settle cfg st n fuel { g := g', waitq := x.waitq.tail }
+      | none => x
+    | none =>
+      -- any thread in the middle of straight-line code moves on
+      match (List.range n).find? fun t =>
+          let pc := (x.g.threads t).pc
+          pc != .idle && !isYield st pc && !isFinal pc && !isWant pc with
+      | some t =>
+        match stepThr cfg x.g t with
+        | some g' => settle cfg st n fuel { x with g := g' }
+        | none => x
+      | none => x
+
+def posChar (pc : Pc) : Char :=
+  match pc with
+  | .idle => '-'
+  | .atGet | .atGet2 => 'G'
+  | .atSet | .atSet2 => 'S'
+  | .atHandler | .atHandlerB => 'H'
+  | .rejected | .doneOk | .doneBypass => 'D'
+  | _ => 'B'
+
+def positions (n : Nat) (g : G) : String := String.ofList ((List.range n).map fun t => posChar (g.threads t).pc)
+
+/-- one harness action (inapplicable ones do not occur in the harness' output: outside the domain) -/
+def doAct (cfg : Cfg) (st : String) (n : Nat) (x : Ex) : HAct → Except String Ex
+  | .start t =>
+    if (x.g.threads t).pc == .idle then
+      match stepThr cfg x.g t with
+      | some g' => pure (settle cfg st n 200 { x with g := g' })
+      | none => throw "outside-domain: start"
+    else throw "outside-domain: start of a started thread"
+  | .release t =>
+    if isYield st (x.g.threads t).pc then
+      match stepThr cfg x.g t with
+      | some g' => pure (settle cfg st n 200 { x with g := g' })
+      | none => throw "outside-domain: release"
+    else throw "outside-domain: release of a thread that is not parked (model)"
+  | .tick d => pure { x with g := { x.g with now := x.g.now + d } }
+  | .gc => pure { x with g := gcStore x.g }
+
+def resultOf (th : Thread) : String :=
+  match th.pc with
+  | .rejected => s!"429:0:{th.reset}:x:x:x"
+  | .doneOk => s!"{th.req.status}:1:x:{th.req.max}:{th.remaining}:{th.reset}"
+  | .doneBypass => s!"{th.req.status}:1:x:x:x:x"
+  | _ => "stuck"
+
+/-! ### events and observations from the implementation's trace -/
+
+def parseObs (s : String) : Except String Spec.Obs := do
+  if s == "panic" || s == "stuck" then return .noAnswer
+  match s.splitOn ":" with
+  | [st, ran, ra, lim, _, _] =>
+    let some st := st.toNat? | throw "outside-domain: obs status"
+    let ra ← (if ra == "x" then pure none else match ra.toNat? with
+      | some v => pure (some v) | none => throw "outside-domain: obs retry-after")
+    let lim ← (if lim == "x" then pure none else match lim.toInt? with
+      | some v => pure (some v) | none => throw "outside-domain: obs limit")
+    pure (.answered st (ran == "1") ra lim)
+  | _ => throw "outside-domain: obs syntax"
+
+structure Trace where
+  now : Nat
+  passedH : List Nat := []
+  hitDone : List Nat := []
+  evs : List Spec.Ev := []     -- reversed
+
+def bypassed (r : Req) : Bool := r.next || r.max == 0
+
+/-- derive the linearisation (hit / unhit events) from the implementation's position vectors -/
+def traceStep (cc : CaseCfg) (reqs : Array Req) (tr : Trace) (a : HAct) (before after : List Char) : Trace :=
+  let hitIfMissing (tr : Trace) (t : Nat) : Trace :=
+    if tr.hitDone.contains t then tr else { tr with hitDone := t :: tr.hitDone, evs := .hit t tr.now :: tr.evs }
+  match a with
+  | .tick d => { tr with now := tr.now + d }
+  | .gc => tr
+  | .start t =>
+    match reqs[t]? with
+    | none => tr
+    | some r =>
+      if bypassed r then tr
+      else
+        let c := after.getD t '-'
+        -- built-in store: the whole first critical section happens inside this action
+        if c == 'H' || c == 'D' then hitIfMissing tr t else tr
+  | .release t =>
+    match reqs[t]? with
+    | none => tr
+    | some r =>
+      if bypassed r then tr
+      else
+        let b := before.getD t '-'
+        if b == 'G' then
+          if tr.passedH.contains t then { tr with evs := .unhit t :: tr.evs } else hitIfMissing tr t
+        else if b == 'H' then
+          let tr := { tr with passedH := t :: tr.passedH }
+          if cc.st == "M" && skipCond cc.cfg r.status then { tr with evs := .unhit t :: tr.evs } else tr
+        else
+          -- released from Set: if it reaches the handler without ever having parked at Get, count it here
+          let c := after.getD t '-'
+          if c == 'H' || c == 'D' then hitIfMissing tr t else tr
+
+def handleCase (f : List String) : Except String Verdict := do
+  match f with
+  | [id, cfgS, thrS, actS, impl] =>
+    let cc ← parseCfg cfgS
+    let reqs ← parseThreads cc thrS
+    let n := reqs.size
+    let acts ← (if actS == "-" then pure [] else (actS.splitOn ",").mapM (parseAct n cc.st))
+    if acts.length > 5000 then throw "outside-domain: too many actions"
+    let reqF : Nat → Req := fun t => reqs.getD t { key := 0, max := 0, status := 200, next := true }
+    -- model
+    let mut x : Ex := { g := init reqF cc.t0 }
+    let mut poss : List String := []
+    for a in acts do
+      x ← doAct cc.cfg cc.st n x a
+      poss := positions n x.g :: poss
+    let modelPos := if poss.isEmpty then "-" else ",".intercalate poss.reverse
+    let modelRes := if n == 0 then "-" else ",".intercalate ((List.range n).map fun t => resultOf (x.g.threads t))
+    let modelObs := modelPos ++ "|" ++ modelRes
+    -- implementation observation
+    let [implPos, implRes] := impl.splitOn "|" | throw "outside-domain: obs"
+    let iposs := if implPos == "-" then [] else implPos.splitOn ","
+    unless iposs.length == acts.length do throw "outside-domain: position vectors do not match the actions"
+    unless iposs.all (·.length == n) do throw "outside-domain: position vector width"
+    let ires := if implRes == "-" then [] else implRes.splitOn ","
+    unless ires.length == n do throw "outside-domain: results do not match the threads"
+    let obsL ← ires.mapM parseObs
+    let obsF : Nat → Spec.Obs := fun t => obsL.getD t .noAnswer
+    -- linearisation from the implementation's own trace
+    let mut tr : Trace := { now := cc.t0 }
+    let mut before : List Char := List.replicate n '-'
+    for (a, p) in acts.zip iposs do
+      tr := traceStep cc reqs tr a before p.toList
+      before := p.toList
+    let evs := tr.evs.reverse
+    let spec := Spec.check cc.cfg reqF n evs obsF
+    -- tags
+    let rej := ires.any (·.startsWith "429:")
+    let unh := evs.any fun e => match e with | .unhit _ => true | _ => false
+    let conc := iposs.any (·.contains 'B')
+    let tags := [(if cc.cfg.sliding then "sliding" else "fixed"), "st" ++ cc.st] ++
+      (if rej then ["rejects"] else []) ++ (if unh then ["unhit"] else []) ++
+      (if conc then ["contended"] else []) ++ (if rej || unh then ["nt"] else [])
+    pure { id := id, modelObs := modelObs, implObs := impl, spec := spec, tags := tags }
+  | _ => throw s!"outside-domain: expected 5 fields, got {f.length}"
+
+def main : IO Unit := run handleCase
